@@ -577,7 +577,7 @@ class Interp:
             return tget(v, k)
         if isinstance(v, IArr):
             return P.iarr_get(v, k)
-        if isinstance(v, P.SList):
+        if isinstance(v, P.SList) or type(v).__name__ == 'SPyr':
             return v.get(k)
         if isinstance(v, PList):
             return v.get(k)
@@ -638,11 +638,11 @@ class Interp:
 
     def e_ListComp(s, n, env):
         r = s.comp(n, env)
-        return r if isinstance(r, PList) else list(r)
+        return r if isinstance(r, PList) or type(r).__name__ == 'SPyr' else list(r)
 
     def e_GeneratorExp(s, n, env):
         r = s.comp(n, env)
-        return r if isinstance(r, PList) else list(r)
+        return r if isinstance(r, PList) or type(r).__name__ == 'SPyr' else list(r)
 
     def e_DictComp(s, n, env):
         if len(n.generators) != 1:
@@ -683,6 +683,10 @@ class Interp:
             return out
         g = gens[0]
         it = s.ev(g.iter, env)
+        if type(it).__name__ == 'SPyr' and not g.ifs:
+            if it.fmap is not None:
+                raise Unsupported('two element-wise maps over the symbolic pyramid')
+            return type(it)(it.J, it.perm, it.lo, it.rev, it.root, (s, n.elt, g.target, dict(env)))
         if isinstance(it, s.P.SymRange) and not g.ifs and isinstance(g.target, ast.Name):
             # [e for _ in range(n)] with symbolic n and e independent of the loop variable: the periodic list [e] * n
             used = {q.id for q in ast.walk(n.elt) if isinstance(q, ast.Name)}
@@ -850,7 +854,7 @@ class Interp:
 
     def s_For(s, n, env):
         it = s.ev(n.iter, env)
-        if isinstance(it, s.P.SymRange) or isinstance(it, s.P.SList):
+        if isinstance(it, s.P.SymRange) or isinstance(it, s.P.SList) or type(it).__name__ in ('SPyr', 'SymZip'):
             key = (s.cur_fn[-1], s.loop_ordinal(n))
             if key not in s.loop_contracts:
                 raise Unsupported('loop over symbolic range without invariant: %s' % (key,))
